@@ -4,23 +4,25 @@
 -/
 import UnicLocale.Model.Likely
 import UnicLocale.Spec.Likely
+import UnicLocale.Gen.Tables
+import UnicLocale.Gen.Cldr
 
-namespace UL
+namespace UL.Dir
 
 /-- the identifier's script is in one of the three script lists of the layout -/
-def LangId.scriptListed (L : Layout) (x : LangId) : Bool :=
+def _root_.UL.LangId.scriptListed (L : Layout) (x : LangId) : Bool :=
   match x.script with
   | some sc => L.ltr.contains (pack sc) || L.rtl.contains (pack sc) || L.ttb.contains (pack sc)
   | none => false
 
 /-- the identifier's language is in the RTL-language list of the layout -/
-def LangId.langRtl (L : Layout) (x : LangId) : Bool :=
+def _root_.UL.LangId.langRtl (L : Layout) (x : LangId) : Bool :=
   match x.language with
   | some lb => L.rtlLangs.contains (pack lb)
   | none => false
 
 /-- the language arm of `character_direction` (reached only when no listed script decides) -/
-def LangId.byLang (likely : Bool) (T : Tables) (L : Layout) (x : LangId) : Res LangId.Dir :=
+def _root_.UL.LangId.byLang (likely : Bool) (T : Tables) (L : Layout) (x : LangId) : Res LangId.Dir :=
   match x.language with
   | some lb =>
     if L.rtlLangs.contains (pack lb) then
@@ -150,4 +152,222 @@ theorem LangId.direction_eq_spec (likely : Bool) (T : Tables) (L : Layout) (x : 
       cases h3 : L.ttb.contains (pack sc) <;>
       simp only [Bool.false_eq_true, if_true, if_false] <;> rfl
 
-end UL
+/-! ### the same binary search on a list, and on a list cut into equal chunks -/
+
+def bsLoopG {α} (get : Nat → Option α) (gt : α → Bool) : Nat → Nat → Nat → Nat
+  | 0, base, _ => base
+  | fuel + 1, base, size =>
+    if size > 1 then
+      let half := size / 2
+      let mid := base + half
+      match get mid with
+      | some x => bsLoopG get gt fuel (if gt x then base else mid) (size - half)
+      | none => base
+    else base
+
+/-- `lookupBy` with the element access and the size abstracted -/
+def lookupG {α} (get : Nat → Option α) (n : Nat) (cmp : α → Nat) : Option α :=
+  if n == 0 then none
+  else
+    let base := bsLoopG get (fun x => cmp x == 2) n 0 n
+    match get base with
+    | some x => if cmp x == 1 then some x else none
+    | none => none
+
+theorem bsLoopA_eq_G {α} (a : Array α) (get : Nat → Option α) (hget : ∀ i, a[i]? = get i)
+    (gt : α → Bool) (fuel base size : Nat) :
+    bsLoopA a gt fuel base size = bsLoopG get gt fuel base size := by
+  induction fuel generalizing base size with
+  | zero => rfl
+  | succ fuel ih =>
+    unfold bsLoopA bsLoopG
+    simp only [hget, ih]
+    rfl
+
+theorem lookupBy_eq_G {α} (a : Array α) (get : Nat → Option α) (n : Nat) (hget : ∀ i, a[i]? = get i)
+    (hn : a.size = n) (cmp : α → Nat) : lookupBy a cmp = lookupG get n cmp := by
+  unfold lookupBy lookupG
+  simp only [hn, hget, bsLoopA_eq_G a get hget]
+  rfl
+
+/-- element `i` of a list stored as chunks of width `w` -/
+def getC {α} (chunks : List (List α)) (w i : Nat) : Option α :=
+  match chunks[i / w]? with
+  | some c => c[i % w]?
+  | none => none
+
+/-- every chunk but the last has exactly `w` elements, the last at most `w` -/
+def chunked {α} (w : Nat) : List (List α) → Bool
+  | [] => true
+  | [c] => c.length ≤ w
+  | c :: rest => c.length == w && chunked w rest
+
+theorem getC_eq_flatten {α} (w : Nat) (hw : 0 < w) (chunks : List (List α)) (h : chunked w chunks = true)
+    (i : Nat) : chunks.flatten[i]? = getC chunks w i := by
+  induction chunks generalizing i with
+  | nil => simp [getC]
+  | cons c rest ih =>
+    cases rest with
+    | nil =>
+      simp only [chunked, decide_eq_true_eq] at h
+      simp only [List.flatten_cons, List.flatten_nil, List.append_nil, getC]
+      by_cases hi : i < w
+      · rw [Nat.div_eq_of_lt hi, Nat.mod_eq_of_lt hi]; rfl
+      · have h1 : 0 < i / w := Nat.div_pos (by omega) hw
+        have h2 : c.length ≤ i := by omega
+        rw [List.getElem?_eq_none h2]
+        cases hq : i / w with
+        | zero => omega
+        | succ q => rfl
+    | cons c2 rest2 =>
+      simp only [chunked, Bool.and_eq_true, beq_iff_eq] at h
+      obtain ⟨hc, hrest⟩ := h
+      have ih' := ih hrest
+      rw [List.flatten_cons]
+      by_cases hi : i < w
+      · rw [List.getElem?_append_left (by omega)]
+        simp only [getC]
+        rw [Nat.div_eq_of_lt hi, Nat.mod_eq_of_lt hi]; rfl
+      · rw [List.getElem?_append_right (by omega), hc, ih' (i - w)]
+        simp only [getC]
+        have h1 : i / w = (i - w) / w + 1 := by
+          have : i = (i - w) + w := by omega
+          conv => lhs; rw [this]
+          exact Nat.add_div_right _ hw
+        have h2 : i % w = (i - w) % w := by
+          have : i = (i - w) + w := by omega
+          conv => lhs; rw [this]
+          exact Nat.add_mod_right _ _
+        rw [h1, h2]; rfl
+
+/-- `lookupBy` on an array whose list is the concatenation of width-`w` chunks -/
+theorem lookupBy_chunks {α} (a : Array α) (chunks : List (List α)) (w n : Nat) (hw : 0 < w)
+    (ha : a.toList = chunks.flatten) (hc : chunked w chunks = true) (hn : a.size = n) (cmp : α → Nat) :
+    lookupBy a cmp = lookupG (getC chunks w) n cmp := by
+  apply lookupBy_eq_G a _ n _ hn
+  intro i
+  rw [← getC_eq_flatten w hw chunks hc, ← ha, Array.getElem?_toList]
+
+
+/-! ### `character_direction` with the one `maximize` query it makes abstracted -/
+
+/-- `maximize(Some(lang), None, region)` spelled out over two lookup functions -/
+def Likely.maximizeLR (lo : Nat → Option Row1) (lr : Nat → Nat → Option Row2) (lb : Bytes)
+    (region : Option Bytes) : Res (Option Triple) :=
+  let step3 : Res (Option Triple) :=
+    match lo (pack lb) with
+    | some row => Likely.langFromParts row.l row.s row.r none region
+    | none => .ok none
+  match region with
+  | some r =>
+    match lr (pack lb) (pack r) with
+    | some row => Likely.langFromParts row.l row.s row.r none none
+    | none => step3
+  | none => step3
+
+theorem Likely.maximize_lang_only (T : Tables) (lb : Bytes) (rg : Option Bytes) :
+    Likely.maximize T (some lb) none rg =
+      Likely.maximizeLR (lookup1 T.langOnly) (lookup2 T.langRegion) lb rg := by
+  unfold Likely.maximize Likely.maximizeLR
+  cases rg <;> rfl
+
+/-- `LangId.direction` with `maximize(self.language, None, self.region)` as a parameter -/
+def _root_.UL.LangId.directionVia (likely : Bool) (mx : Bytes → Option Bytes → Res (Option Triple)) (L : Layout)
+    (x : LangId) : Res LangId.Dir :=
+  let byLang : Res LangId.Dir :=
+    match x.language with
+    | some lb =>
+      if L.rtlLangs.contains (pack lb) then
+        if likely then
+          match mx lb x.region with
+          | .err e => .err e
+          | .panic => .panic
+          | .ok (some (_, some sc, _)) =>
+            if L.ltr.contains (pack sc) then .ok .ltr else .ok .rtl
+          | .ok _ => .ok .rtl
+        else .ok .rtl
+      else .ok .ltr
+    | none => .ok .ltr
+  match x.script with
+  | some sc =>
+    let s := pack sc
+    if L.ltr.contains s then .ok .ltr
+    else if L.rtl.contains s then .ok .rtl
+    else if L.ttb.contains s then .ok .ttb
+    else byLang
+  | none => byLang
+
+theorem LangId.direction_eq_via (likely : Bool) (T : Tables) (L : Layout) (x : LangId) :
+    LangId.direction likely T L x =
+      LangId.directionVia likely (Likely.maximizeLR (lookup1 T.langOnly) (lookup2 T.langRegion)) L x := by
+  unfold LangId.direction LangId.directionVia
+  cases hl : x.language with
+  | none => rfl
+  | some lb =>
+    simp only [Likely.maximize_lang_only]
+    rfl
+
+/-! ### the compiled tables: `LANG_ONLY` as chunks (kernel evaluation of `binary_search` on the
+    7,143-row `List.toArray` literal costs seconds per query; on 256-row chunks it costs nothing) -/
+
+/-- the chunk definitions of `Gen/Tables.lean`, in order -/
+def Gen.langOnlyChunks : List (List Row1) := [Gen.langOnly_0, Gen.langOnly_1, Gen.langOnly_2, Gen.langOnly_3, Gen.langOnly_4, Gen.langOnly_5, Gen.langOnly_6, Gen.langOnly_7, Gen.langOnly_8, Gen.langOnly_9, Gen.langOnly_10, Gen.langOnly_11, Gen.langOnly_12, Gen.langOnly_13, Gen.langOnly_14, Gen.langOnly_15, Gen.langOnly_16, Gen.langOnly_17, Gen.langOnly_18, Gen.langOnly_19, Gen.langOnly_20, Gen.langOnly_21, Gen.langOnly_22, Gen.langOnly_23, Gen.langOnly_24, Gen.langOnly_25, Gen.langOnly_26, Gen.langOnly_27]
+
+theorem Gen.langOnly_toList : Gen.tables.langOnly.toList = Gen.langOnlyChunks.flatten := by
+  show Gen.langOnlyL = _
+  unfold Gen.langOnlyL Gen.langOnlyChunks
+  simp only [List.flatten_cons, List.flatten_nil, List.append_nil, List.append_assoc]
+
+theorem Gen.langOnly_chunked : chunked 256 Gen.langOnlyChunks = true := by decide +kernel
+
+set_option maxRecDepth 100000 in
+theorem Gen.langOnly_size : Gen.tables.langOnly.size = 7143 := by
+  show Gen.tables.langOnly.toList.length = 7143
+  rw [Gen.langOnly_toList]
+  decide +kernel
+
+/-- `LANG_ONLY.binary_search_by_key(k)` evaluated chunk-wise -/
+def Gen.fastLangOnly (k : Nat) : Option Row1 :=
+  lookupG (getC Gen.langOnlyChunks 256) 7143 (fun row => cmpNat k row.k)
+
+theorem Gen.lookup1_langOnly : lookup1 Gen.tables.langOnly = Gen.fastLangOnly := by
+  funext k
+  exact lookupBy_chunks _ _ 256 7143 (by decide) Gen.langOnly_toList Gen.langOnly_chunked
+    Gen.langOnly_size _
+
+/-- `character_direction` on the compiled tables, with the cheap `LANG_ONLY` search -/
+theorem Gen.direction_eq_fast (likely : Bool) (L : Layout) (x : LangId) :
+    LangId.direction likely Gen.tables L x =
+      LangId.directionVia likely (Likely.maximizeLR Gen.fastLangOnly (lookup2 Gen.tables.langRegion)) L x := by
+  rw [LangId.direction_eq_via, Gen.lookup1_langOnly]
+
+/-! ### the CLDR layout entries as identifiers -/
+
+/-- `characterOrder` as translated: 0 = left-to-right, 1 = right-to-left, 2 = top-to-bottom -/
+def dirOf : Nat → LangId.Dir
+  | 0 => .ltr
+  | 1 => .rtl
+  | _ => .ttb
+
+/-- the identifier of a CLDR layout locale (its variants are added by the theorems: they never matter) -/
+def entryId (e : Spec.LEntry) : LangId :=
+  { language := Spec.unpackOpt e.l, script := Spec.unpackOpt e.s, region := Spec.unpackOpt e.r }
+
+/-- language `l` occurs in the layout data with more than one direction -/
+def multiDir (ls : List Spec.LEntry) (l : Nat) : Prop :=
+  ∃ e1 ∈ ls, e1.l = l ∧ ∃ e2 ∈ ls, e2.l = l ∧ e1.dir ≠ e2.dir
+
+instance (ls : List Spec.LEntry) (l : Nat) : Decidable (multiDir ls l) := by
+  unfold multiDir; infer_instance
+
+theorem LangId.direction_variants (likely : Bool) (T : Tables) (L : Layout) (x : LangId)
+    (v : Option (List Bytes)) :
+    LangId.direction likely T L { x with variants := v } = LangId.direction likely T L x := rfl
+
+/-- all 710 locales, likely-subtags support on, evaluated with the chunk-wise `LANG_ONLY` search -/
+theorem Gen.layout_likely_fast : ∀ e ∈ Gen.cldrLayout,
+    LangId.directionVia true (Likely.maximizeLR Gen.fastLangOnly (lookup2 Gen.tables.langRegion))
+      Gen.layout (entryId e) = .ok (dirOf e.dir) := by
+  decide +kernel
+
+end UL.Dir
